@@ -7,8 +7,8 @@ import MsqModel.Gen.PyTables
 `append_partition_by_column` (`node.py:1635-1664`).  All five start from `get_params_dict()` (`node.py:250-252`): a new
 dict `field name ↦ the receiver's own field object`, change one entry and call the class with the dict.
 
-They are modelled on `Val` and not on the typed trees because they can — and `change_type` today does — build objects the
-parser never builds (a Python *list* in a field).  A `Val` has no identity, so the one place where identity matters is made
+They are modelled on `Val` and not on the typed trees because they can build objects the parser never builds (until /repo 0d6c89d
+`change_type` stored a Python *list* in a field; the container is still a parameter of the model, `changeTypeWith`).  A `Val` has no identity, so the one place where identity matters is made
 explicit: `params["columns"] += (column,)` rebuilds a tuple but extends a list IN PLACE, and that list is the receiver's own
 field object; `appendTo` therefore returns the receiver as it is after the call next to the result.
 -/
@@ -82,11 +82,9 @@ def changeTypeWith (mk : List Val → Val) (self : Val) (hashmap : List (String 
     else .error (.py .AttributeError)
   | _ => .error (.py .AttributeError)
 
-/-- `ASTCreateTableStatement.change_type` as written: `new_columns = []` … `params["columns"] = new_columns` — a Python LIST -/
-def changeType := changeTypeWith Val.list
-
-/-- `change_type` with the one-word repair `params["columns"] = tuple(new_columns)` -/
-def changeTypeRepaired := changeTypeWith Val.tuple
+/-- `ASTCreateTableStatement.change_type`: `new_columns = []` … `params["columns"] = tuple(new_columns)`
+(since /repo 0d6c89d; before, the list itself was stored — `changeTypeWith Val.list`) -/
+def changeType := changeTypeWith Val.tuple
 
 /-- `params[field] += (column,)` then the constructor call (`append_column`: `field = "columns"`,
 `append_partition_by_column`: `field = "partitioned_by"`): `(result, the receiver after the call)` -/
